@@ -26,7 +26,7 @@ RULE = ("RX: CBR sequences enumerated exhaustively over boundary representatives
         "compared with the reference model.")
 ASSUMPTIONS = ["Annex A rows are the oracle's own transcription (standard text not available offline); rate x T_off = 1 s checked independently",
                "time and delta compared with 1 us / 1e-12 tolerance; instants within 1 us of a scheduled opening are not judged"]
-REQUIRED_COUNTERS = ["RX.steps", "RW.steps", "AD.steps", "GK.decisions", "GK.opening_probes"]
+REQUIRED_COUNTERS = ["RX.steps", "RW.steps", "AD.steps", "GK.decisions", "GK.opening_probes", "GK.calls_earlier_than_previous_call"]
 EXHAUSTIVE = {}
 
 
